@@ -14,13 +14,22 @@ for sid in sorted(os.listdir(os.path.join(V, 'seeded'))):
     title = next((l.strip('# ').strip() for l in notes.splitlines() if l.strip()), '')
     caught = [p for p, c in t.get('checks', {}).items() if c['violations'] > 0]
     missed = [p for p, c in t.get('checks', {}).items() if c['violations'] == 0]
-    valid = t.get('applies') and 'passed' in t.get('tests', '') and 'failed' not in t.get('tests', '') \
-        and t.get('demo_rc_changed') == '1' and t.get('demo_rc_unchanged') == '0'
+    passed = t.get('applies') and 'passed' in t.get('tests', '') and 'failed' not in t.get('tests', '')
+    # first round: demo.py exits 1 with the change and 0 without; second round (d, e): the
+    # demo prints what it observes, its recorded output without / with the change differs
+    bf, af = os.path.join(d, 'before.txt'), os.path.join(d, 'after.txt')
+    if os.path.exists(bf) and os.path.exists(af):
+        differs = open(bf, encoding='utf-8', errors='replace').read() != \
+            open(af, encoding='utf-8', errors='replace').read()
+    else:
+        differs = t.get('demo_rc_changed') == '1' and t.get('demo_rc_unchanged') == '0'
+    valid = passed and differs
     meta = {'id': sid, 'breaks_property': sid[:3], 'summary': title,
             'needs_to_manifest': 'see notes.md',
             'confirmed': {'patch_applies': t.get('applies'), 'test_suite_with_change': t.get('tests'),
                           'demo_exit_with_change': t.get('demo_rc_changed'),
-                          'demo_exit_without_change': t.get('demo_rc_unchanged')},
+                          'demo_exit_without_change': t.get('demo_rc_unchanged'),
+                          'demo_output_differs': bool(differs)},
             'what_i_ran': 'tools/seed_trials.py: git -C /repo apply patch.diff; pytest; demo.py; '
                           './check <ids> --tier quick; git -C /repo checkout -- .',
             'valid_seed': bool(valid),
